@@ -179,7 +179,9 @@ def r_loading(repo, rep, R='R17.3'):
               'seen rules are stored as pairs with X and nb erased on both sides (the key apply_binary_rules looks up)', 'seen-rule normalisation changed')
     dc = [n for n in ast.walk(fn) if isinstance(n, ast.DictComp) and isinstance(n.value, ast.ListComp) and isinstance(n.value.elt, ast.Call)
           and src(n.value.elt.func) == 'Category.parse' and "pop('cat_dict')" in src(n.generators[0].iter)]
-    rep.check(len(dc) == 1, R, w, 'read_params:cat_dict', 'the dictionary maps each word to its parsed categories', 'cat_dict loading changed')
+    unfiltered = len(dc) == 1 and not dc[0].value.generators[0].ifs and not dc[0].generators[0].ifs and len(dc[0].value.generators) == 1
+    rep.check(unfiltered, R, w, 'read_params:cat_dict', 'the dictionary maps each word to all of its listed categories, parsed (no entry or category is filtered out while loading)',
+              'cat_dict loading drops or rewrites entries (comparison of raw spellings would e.g. lose the comma category, spelled ", " in targets.en)')
 
 
 def check(repo, rep, tier):
